@@ -160,16 +160,86 @@ def run(tier, seed, replay=None):
             diffs += 1
             res.violation("C10 fails (%s, n=%d, theta=%d/%d, k=%d): %s" % (c["Mode"], c["N"], c["Theta"], c["Den"], c["K"], bad),
                           {"case": c, "impl": r0, "model": None if model is None else model[ci]})
+    # ---- report level: clone.clone_groups[] of the real CLI vs the pairs REPORTED in the same JSON (connected mode, the CLI's mode) --------
+    import shutil
+    import tempfile
+    from . import cloneeng as E
+    cli_runs = 0
+    tmp = tempfile.mkdtemp(prefix="pv_c10_")
+    try:
+        for pi in range(12 if tier == "quick" else 60):
+            root = os.path.join(tmp, "p%d" % pi)
+            pr = E.gen_project(rng, nbase=rng.randint(2, 4), nodes=[10, 14, 20])
+            for f in pr.sources():
+                pth = os.path.join(root, "proj", f["Path"])
+                os.makedirs(os.path.dirname(pth), exist_ok=True)
+                with open(pth, "w") as fh:
+                    fh.write(f["Src"])
+            types = rng.choice([None, ["type1", "type2", "type4"], ["type1"], ["type1", "type2", "type3", "type4"], ["type3", "type4"]])
+            with open(os.path.join(root, "cfg.toml"), "w") as fh:
+                rng_sim = rng.choice([None, None, (0.0, 0.95), (0.7, 1.0), (0.8, 0.99)])
+                fh.write("[clones]\nmin_lines = 4\nmin_nodes = 8\n" + ("" if types is None else "enabled_clone_types = %s\n" % json.dumps(types))
+                         + ("" if rng_sim is None else "min_similarity = %s\nmax_similarity = %s\n" % rng_sim))
+            rc, data, err = C.pyscn_json(["proj"], root, extra=["--select", "clones", "--config", os.path.join(root, "cfg.toml")])
+            cli_runs += 1
+            cl = (data or {}).get("clone")
+            if not cl:
+                continue
+            thr = cl["request"].get("group_threshold") or 0.0
+            loc = lambda c: (c["location"]["file_path"], c["location"]["start_line"], c["location"]["end_line"])
+            groups = [sorted(loc(c) for c in g["clones"]) for g in cl.get("clone_groups") or []]
+            adj = {}
+            for p in cl.get("clone_pairs") or []:
+                if p["similarity"] >= thr:
+                    a, b = loc(p["clone1"]), loc(p["clone2"])
+                    adj.setdefault(a, set()).add(b)
+                    adj.setdefault(b, set()).add(a)
+            comps, seen = [], set()
+            for v in sorted(adj):
+                if v in seen:
+                    continue
+                comp, todo = [], [v]
+                seen.add(v)
+                while todo:
+                    u = todo.pop()
+                    comp.append(u)
+                    for w in adj[u]:
+                        if w not in seen:
+                            seen.add(w)
+                            todo.append(w)
+                comps.append(sorted(comp))
+            info = {"files": pr.sources(), "enabled_clone_types": types, "similarity_range": rng_sim, "group_threshold": thr}
+            flat = [m for g in groups for m in g]
+            bad = None
+            if any(len(g) < 2 for g in groups):
+                bad = ("a reported group has fewer than two members", {"kind": "report-group", "what": "small"})
+            elif len(set(flat)) != len(flat):
+                bad = ("a fragment belongs to two reported groups", {"kind": "report-group", "what": "overlap"})
+            elif sorted(groups) != sorted(comps):
+                only_g = [g for g in groups if g not in comps][:1]
+                only_c = [c for c in comps if c not in groups][:1]
+                bad = ("the reported groups are not the connected components of the REPORTED pairs at or above the grouping threshold %.2f: group %s vs component %s" % (thr, only_g, only_c),
+                       {"kind": "report-group", "what": "not-components", "types_filtered": types is not None and len(types) < 4})
+            if bad:
+                k = C.classify(PID, bad[1])
+                if k:
+                    res.known_finding(k, "(%s)" % bad[0][:250])
+                else:
+                    res.violation("C10 (report): " + bad[0], dict(info, signature=bad[1]))
+    finally:
+        shutil.rmtree(tmp, ignore_errors=True)
     if not ps.ok and not any(f for _, _, f in res.violations):
         res.violation("proof obligation or tie broken: " + "; ".join(ps.broken)[:1500],
                       {"broken": ps.broken, "note": "no pair graph on which the implementation violates C10 was found in %d cases" % len(cases)},
                       found_input=False)
     res.coverage.update({
-        "evaluations": len(cases) * 2,
+        "evaluations": len(cases) * 2 + cli_runs,
+        "cli_runs": cli_runs,
         "distinct_nontrivial": len(nontrivial),
         "rule": "every weighted graph on 3 and 4 fragments with edge weights in {absent, θ-1/64, θ, θ+1/64} for each mode (k-core with k=1,2,3), "
                 "random graphs ≤30 fragments (cliques/near-cliques, stars, chains, duplicate and reversed pairs, thresholds incl. 1/64 and 1); "
-                "each run twice (map order); non-trivial = distinct case with at least one group",
+                "each run twice (map order); non-trivial = distinct case with at least one group; REPORT LEVEL: generated clone projects through the real CLI with "
+                "random enabled_clone_types and min/max_similarity — clone.clone_groups[] must be the >=2-member components of the clone.clone_pairs[] of the same report",
         "exhaustive": True,
         "exhaustive_note": "complete for ≤%d fragments over the 4-level weight grid; sampled beyond" % exhaustive_n,
         "samples": [{"case": cases[-1], "impl_groups": go[-1].get("runs", [{}])[0].get("groups")}],
